@@ -142,6 +142,11 @@ pub open spec fn root_proven(h: BlockHash, slice: SliceIndex, root: SliceRoot) -
     exists|proof: DoubleMerkleProof| spec_check_proof(root, slice.0 as int, h, proof) || spec_check_proof_last(root, slice.0 as int, h, proof)
 }
 
+// "slice is the LAST leaf of the block with hash h, proved by some Merkle path for some root"
+pub open spec fn last_proven(h: BlockHash, slice: SliceIndex) -> bool {
+    exists|root: SliceRoot, proof: DoubleMerkleProof| spec_check_proof_last(root, slice.0 as int, h, proof)
+}
+
 // The shared blockstore / pool handles (Arc<RwLock<dyn ..>>): only the two calls made by handle_response, as ghost logs.
 #[verifier::external_body] pub struct SharedBlockstore { _p: () }
 #[verifier::external_body] pub struct SharedPool { _p: () }
@@ -290,11 +295,17 @@ pub broadcast proof fn axiom_root_key_obeys_cmp_laws()
     ensures #[trigger] vstd::laws_cmp::obeys_cmp::<((Slot, DoubleMerkleRoot), SliceIndex)>()
 {}
 
-// struct Repair<N: Network> (src/repair.rs) with the two maps kept and everything else opaque
+#[verifier::external_body]
+pub broadcast proof fn axiom_block_id_obeys_cmp_laws()
+    ensures #[trigger] vstd::laws_cmp::obeys_cmp::<(Slot, DoubleMerkleRoot)>()
+{}
+
+// struct Repair<N: Network> (src/repair.rs) with the three maps kept and everything else opaque
 pub struct Repair {
     pub blockstore: SharedBlockstore,
     pub pool: SharedPool,
     pub slice_roots: BTreeMap<(BlockId, SliceIndex), SliceRoot>,
+    pub last_slices: BTreeMap<BlockId, SliceIndex>,
     pub outstanding_requests: BTreeMap<Hash, RepairRequestType>,
     pub other: OtherParts,
     pub epoch_info: EpochHandle,
@@ -311,12 +322,24 @@ impl Repair {
         &&& forall|h: Hash| #[trigger] self.outstanding_requests@.contains_key(h) ==> spec_req_hash(self.outstanding_requests@[h]) == h
         &&& forall|h: Hash| #[trigger] self.outstanding_requests@.contains_key(h) ==>
                 (self.outstanding_requests@[h] matches RepairRequestType::Shred(b, s, i) ==> self.slice_roots@.contains_key((b, s)))
+        // slice roots and shreds of a block are only requested once its last slice is known
+        &&& forall|h: Hash| #[trigger] self.outstanding_requests@.contains_key(h) ==>
+                (self.outstanding_requests@[h] matches RepairRequestType::Shred(b, s, i) ==> self.last_slices@.contains_key(b))
+        &&& forall|h: Hash| #[trigger] self.outstanding_requests@.contains_key(h) ==>
+                (self.outstanding_requests@[h] matches RepairRequestType::SliceRoot(b, s) ==> self.last_slices@.contains_key(b))
     }
-    pub open spec fn inv(&self) -> bool { self.roots_ok() && self.reqs_ok() }
+    // the slice recorded as a block's last one was proved to be the LAST leaf under the block hash
+    pub open spec fn last_ok(&self) -> bool {
+        forall|b: BlockId| #[trigger] self.last_slices@.contains_key(b) ==> last_proven(b.1, self.last_slices@[b])
+    }
+    pub open spec fn inv(&self) -> bool { self.roots_ok() && self.reqs_ok() && self.last_ok() }
     // what a correct answer to request `q` looks like
     pub open spec fn good_shred(&self, q: RepairRequestType, shred: Shred) -> bool {
         q matches RepairRequestType::Shred(b, s, i) && shred.spec_payload().header.slot == b.0 && shred.spec_payload().header.slice_index == s
             && shred.spec_payload().shred_index == i && self.slice_roots@.contains_key((b, s)) && shred.spec_slice_root() == self.slice_roots@[(b, s)]
+            // the last-slice flag is under the leader's signature only, not under the proved slice root: it has to agree with
+            // the slice proved to be the last leaf of the block (another signed slice of a Byzantine leader may share the root)
+            && self.last_slices@.contains_key(b) && shred.spec_payload().header.is_last == (s == self.last_slices@[b])
             && sig_ok(shred, self.epoch_info.spec_leader_pk(b.0))
     }
 }
@@ -333,7 +356,7 @@ impl SlotBlockData {
 
 pub mod code {
 use super::*;
-broadcast use super::axiom_new_block_data, super::axiom_DoubleMerkleRoot_obeys_cmp_laws, super::axiom_Hash_obeys_cmp_laws, super::axiom_root_key_obeys_cmp_laws, super::axiom_req_hash_injective;
+broadcast use super::axiom_new_block_data, super::axiom_DoubleMerkleRoot_obeys_cmp_laws, super::axiom_Hash_obeys_cmp_laws, super::axiom_root_key_obeys_cmp_laws, super::axiom_block_id_obeys_cmp_laws, super::axiom_req_hash_injective;
 
 
 impl SliceIndex {
@@ -365,6 +388,7 @@ impl Repair {
         ensures
             final(self).outstanding_requests@ == old(self).outstanding_requests@.insert(spec_req_hash(req_type), req_type),
             final(self).slice_roots@ == old(self).slice_roots@,
+            final(self).last_slices@ == old(self).last_slices@,
             final(self).blockstore.stored() == old(self).blockstore.stored(),
             final(self).epoch_info == old(self).epoch_info,
     { unimplemented!() }
@@ -393,6 +417,11 @@ ensures
         final(self).blockstore.stored() != old(self).blockstore.stored() ==>
             (response matches RepairResponse::Shred(q, shred) && old(self).good_shred(q, shred)
              && (q matches RepairRequestType::Shred(b, sl, i) && final(self).blockstore.stored() == old(self).blockstore.stored().push((b.1, shred)))),
+        // [C14.shred_of_another_signed_slice_is_refused]
+        // a shred reaches the store only with the last-slice flag of the slice PROVED to be the block's last one
+        final(self).blockstore.stored() != old(self).blockstore.stored() ==>
+            (response matches RepairResponse::Shred(q, shred) && (q matches RepairRequestType::Shred(b, sl, i)
+                && old(self).last_slices@.contains_key(b) && shred.spec_payload().header.is_last == (sl == old(self).last_slices@[b]))),
         // [C14.correct_shred_is_stored]
         (old(self).outstanding_requests@.contains_key(spec_req_hash(response.req())) && (response matches RepairResponse::Shred(q, shred) && old(self).good_shred(q, shred)))
             ==> final(self).blockstore.stored().len() == old(self).blockstore.stored().len() + 1,
@@ -405,18 +434,33 @@ ensures
         // (in particular a LastSliceRoot answer is only believed with a proof that the slice is the LAST leaf)
         (old(self).outstanding_requests@.contains_key(spec_req_hash(response.req())) && !old(self).accepts(response)) ==>
             final(self).slice_roots@ == old(self).slice_roots@ && final(self).outstanding_requests@ == old(self).outstanding_requests@
-            && final(self).blockstore.stored() == old(self).blockstore.stored(),
+            && final(self).blockstore.stored() == old(self).blockstore.stored() && final(self).last_slices@ == old(self).last_slices@,
         // [C14.invalid_response_leaves_request_outstanding]
         (old(self).outstanding_requests@.contains_key(spec_req_hash(response.req())) && !old(self).accepts(response)) ==>
             final(self).outstanding_requests@.contains_key(spec_req_hash(response.req())),
 before `let request_hash = response.request_type().hash();`
         let ghost pre = *old(self);
         let ghost resp0 = response;
+before `let mut verif_s: usize = 0;`
+        proof {
+            assert(last_proven(block_id.1, last_slice)) by { assert(spec_check_proof_last(root, last_slice.0 as int, block_id.1, proof)); }
+            assert forall|b: BlockId| #[trigger] self.last_slices@.contains_key(b) implies last_proven(b.1, self.last_slices@[b]) by {
+                assert(self.last_slices@ == pre.last_slices@.insert(*block_id, last_slice));
+                if b == *block_id { }
+                else {
+                    assert(pre.last_slices@.contains_key(b) && pre.last_slices@[b] == self.last_slices@[b]);
+                    assert(pre.last_ok());
+                }
+            }
+            assert(self.last_ok());
+        }
 loop 0
         invariant
             pre == *old(self) && pre.inv() && self.inv(),
             last_slice.0 < 1024 && verif_s <= last_slice.0 + 1,
             self.slice_roots@ == pre.slice_roots@.insert((*block_id, last_slice), root),
+            self.last_slices@ == pre.last_slices@.insert(*block_id, last_slice),
+            spec_check_proof_last(root, last_slice.0 as int, block_id.1, proof),
             self.blockstore.stored() == pre.blockstore.stored() && self.epoch_info == pre.epoch_info,
         decreases last_slice.0 + 1 - verif_s,
 loop 1
@@ -424,6 +468,7 @@ loop 1
             pre == *old(self) && pre.inv() && self.inv(),
             verif_x <= TOTAL_SHREDS,
             self.slice_roots@ == pre.slice_roots@.insert((*block_id, slice), root),
+            self.last_slices@ == pre.last_slices@ && pre.last_slices@.contains_key(*block_id),
             self.blockstore.stored() == pre.blockstore.stored() && self.epoch_info == pre.epoch_info,
         decreases TOTAL_SHREDS - verif_x,
 @*/
